@@ -274,6 +274,15 @@ func (req *SrvReq) Process() {
 	}
 
 	switch req.Tc.Type {
+	case Twalk, Topen, Tcreate, Tread, Twrite, Tclunk, Tremove, Tstat, Twstat:
+		/* these operate on an existing fid; NOFID names none */
+		if req.Fid == nil {
+			req.RespondError(Eunknownfid)
+			return
+		}
+	}
+
+	switch req.Tc.Type {
 	default:
 		req.RespondError(&Error{"unknown message type", EINVAL})
 
